@@ -88,7 +88,7 @@ def api_init_graph(res, rng, metric, kind, wide=False):
             return
 
 
-def api_good_init(res, rng, metric, sparse=False, p=None, zero_rows=False):
+def api_good_init(res, rng, metric, sparse=False, p=None, zero_rows=False, with_dist=False):
     """a GOOD supplied graph (exact k-NN) with a few unknown (-1) entries, one of them in row 0, and no refinement: whatever the
     construction does, no supplied neighbour may be lost (random initialisation cannot rediscover them)"""
     from scipy.spatial.distance import cdist
@@ -104,9 +104,14 @@ def api_good_init(res, rng, metric, sparse=False, p=None, zero_rows=False):
     G[0, int(rng.integers(1, k))] = -1
     for r_ in rng.integers(1, n, 5):
         G[int(r_), int(rng.integers(1, k))] = -1
+    G[1, 0] = -1                                        # an unknown entry may stand anywhere, also in front of known ones
     import scipy.sparse as sp_
+    more = {}
+    if with_dist:
+        # the caller also supplies the (true) distances of its graph: a metric without an internal surrogate takes them as they are
+        more["init_dist"] = np.where(G >= 0, np.take_along_axis(D, np.maximum(G, 0), axis=1), 0.0).astype(np.float32)
     idx = NNDescent(sp_.csr_matrix(X) if sparse else X, metric=metric, metric_kwds=({"p": p} if p else None), n_neighbors=k,
-                    random_state=int(rng.integers(10 ** 6)), init_graph=G, n_iters=0)
+                    random_state=int(rng.integers(10 ** 6)), init_graph=G, n_iters=0, **more)
     inds, dists = idx.neighbor_graph
     case = {"metric": metric, "sparse": sparse, "p": p, "n": n, "k": k, "init": "exact k-NN with a -1 hole in row 0", "n_iters": 0}
     res.case(("good-init", metric, sparse, zero_rows, X.tobytes()[:64]), True, sample=case); res.count("api_good_init"); res.traces += 1
@@ -205,8 +210,10 @@ def run(res, tier, seed, search):
     api_good_init(res, rng, "minkowski", sparse=True, p=3.0)
     api_good_init(res, rng, "euclidean", sparse=True, zero_rows=True)
     api_good_init(res, rng, "euclidean")
+    api_good_init(res, rng, "manhattan", with_dist=True)     # init_dist is used as supplied only when the metric has no surrogate
     if tier != "quick":
         api_good_init(res, rng, "manhattan")
+        api_good_init(res, rng, "euclidean", with_dist=True)
     for metric in (["euclidean", "cosine"] if tier == "quick" else ["euclidean", "cosine", "manhattan", "correlation"]):
         for r in range(reps):
             api_update(res, rng, metric)
